@@ -334,11 +334,882 @@ example : vwapExact (fieldAt (·.h) winDemoRaw) (fieldAt (·.l) winDemoRaw) (fie
     (fieldAt (·.v) winDemoRaw) 4 = 37 / 3 := by
   norm_num [vwapExact, cumPV, cumSum, typAt, fieldAt, winDemoRaw, Demo.mk]
 
+/-! ## windows -/
+
+section windows
+variable {F : Type} [PyF F]
+
+theorem absIndex_nat (i len : Nat) (h : i < len) : absIndex (i : Int) len = some (i : Int) := by
+  unfold absIndex validIndex
+  have a : decide ((i : Int) < (len : Int)) = true := decide_eq_true (by omega)
+  have b : decide (-(len : Int) ≤ (i : Int)) = true := decide_eq_true (by omega)
+  have c : ¬ (i : Int) < 0 := by omega
+  simp [a, b, c, h]
+
+theorem readingByIndex_nat (cs : List (Candle F)) (ind : String) (j : Nat) (h : j < cs.length) :
+    readingByIndex cs ind (j : Int) = readingByCandle (cs.getD j default) ind := by
+  unfold readingByIndex validIndex
+  have a : decide ((j : Int) < (cs.length : Int)) = true := decide_eq_true (by omega)
+  have b : decide (-(cs.length : Int) ≤ (j : Int)) = true := decide_eq_true (by omega)
+  rw [a, b, pyIndex_nonneg _ _ (by omega)]
+  simp only [Int.toNat_natCast, Bool.and_self, if_true]
+  rw [List.getD_eq_getElem?_getD, List.getElem?_eq_getElem h]
+  rfl
+
+/-- the candles of a Python slice `cs[s:e]` with `s < e ≤ len` -/
+theorem mem_pySlice (cs : List (Candle F)) (s e : Nat) (hs : s < e) (he : e ≤ cs.length) (c : Candle F) :
+    c ∈ pySlice cs (s : Int) (e : Int) ↔ ∃ k, s ≤ k ∧ k < e ∧ cs[k]? = some c := by
+  unfold pySlice
+  have a1 : ¬ (s : Int) < 0 := by omega
+  have a2 : ¬ (s : Int) > (cs.length : Int) := by omega
+  have a3 : ¬ (e : Int) < 0 := by omega
+  have a4 : ¬ (e : Int) > (cs.length : Int) := by omega
+  have a5 : ¬ (s : Int) ≥ (e : Int) := by omega
+  simp only [a1, a2, a3, a4, a5, if_false]
+  rw [List.mem_iff_getElem?]
+  have e1 : ((e : Int) - (s : Int)).toNat = e - s := by omega
+  simp only [Int.toNat_natCast, e1]
+  constructor
+  · rintro ⟨k, hk⟩
+    by_cases hke : k < e - s
+    · rw [List.getElem?_take_of_lt hke, List.getElem?_drop] at hk
+      exact ⟨s + k, by omega, by omega, hk⟩
+    · rw [List.getElem?_take] at hk; simp [hke] at hk
+  · rintro ⟨k, h1, h2, h3⟩
+    refine ⟨k - s, ?_⟩
+    rw [List.getElem?_take_of_lt (by omega), List.getElem?_drop]
+    have : s + (k - s) = k := by omega
+    rw [this]; exact h3
+
+/-- the clean readings of a candle-field window are exactly the field values of the candles
+`max(i−n, 0) … i` -/
+theorem mem_cleanScalars_attr (cs : List (Candle F)) (ind : String) (f : Candle F → Num F)
+    (hf : ∀ c, readingByCandle c ind = .num (f c)) (n i : Nat) (hi : i < cs.length) (s : Scalar F) :
+    s ∈ Mov.cleanScalars cs ind (n : Int) (i : Int) true
+      ↔ ∃ k, i - n ≤ k ∧ k ≤ i ∧ s = .num (f (cs.getD k default)) := by
+  unfold Mov.cleanScalars
+  simp only [if_true]
+  have est : (if (i : Int) - (n : Int) < 0 then (0 : Int) else (i : Int) - (n : Int)) = ((i - n : Nat) : Int) := by
+    split_ifs <;> omega
+  have een : (i : Int) + 1 = ((i + 1 : Nat) : Int) := by push_cast; rfl
+  rw [est, een, List.mem_filterMap]
+  constructor
+  · rintro ⟨v, hv, hs⟩
+    rw [List.mem_reverse, List.mem_map] at hv
+    obtain ⟨c, hc, rfl⟩ := hv
+    rw [mem_pySlice cs _ _ (by omega) (by omega)] at hc
+    obtain ⟨k, h1, h2, h3⟩ := hc
+    refine ⟨k, h1, by omega, ?_⟩
+    rw [hf] at hs
+    simp only [Option.some.injEq] at hs
+    rw [← hs, List.getD_eq_getElem?_getD, h3]; rfl
+  · rintro ⟨k, h1, h2, rfl⟩
+    refine ⟨.num (f (cs.getD k default)), ?_, rfl⟩
+    rw [List.mem_reverse, List.mem_map]
+    refine ⟨cs.getD k default, ?_, hf _⟩
+    rw [mem_pySlice cs _ _ (by omega) (by omega)]
+    refine ⟨k, h1, by omega, ?_⟩
+    rw [List.getD_eq_getElem?_getD, List.getElem?_eq_getElem (by omega)]; rfl
+
+/-- `movement.highest/lowest` over a candle field with `length ≥ 1` returns the field value of one
+of the candles `max(i−n, 0) … i` (type kept) -/
+theorem extreme_total (cs : List (Candle F)) (ind : String) (f : Candle F → Num F)
+    (hf : ∀ c, readingByCandle c ind = .num (f c)) (better : Num F → Num F → Bool)
+    (n i : Nat) (hn : 1 ≤ n) (hi : i < cs.length) :
+    ∃ k, i - n ≤ k ∧ k ≤ i ∧ Mov.extreme cs ind (n : Int) (i : Int) better = .ok (.num (f (cs.getD k default))) := by
+  unfold Mov.extreme
+  rw [absIndex_nat i cs.length hi]
+  have a : ¬ ((n : Int) < 1) := by omega
+  have b : cs.isEmpty = false := by
+    cases cs with
+    | nil => simp at hi
+    | cons _ _ => rfl
+  simp only [a, b, decide_false, Bool.or_self, Bool.false_eq_true, if_false]
+  have hown : Scalar.num (f (cs.getD i default)) ∈ Mov.cleanScalars cs ind (n : Int) (i : Int) true :=
+    (mem_cleanScalars_attr cs ind f hf n i hi _).2 ⟨i, by omega, le_refl _, rfl⟩
+  cases hl : Mov.cleanScalars cs ind (n : Int) (i : Int) true with
+  | nil => rw [hl] at hown; cases hown
+  | cons x xs =>
+    have hp : Mov.pickScalar better (x :: xs) = some
+        (xs.foldl (fun best y => if better (Mov.scalarNum y) (Mov.scalarNum best) then y else best) x) := rfl
+    have hm := pickScalar_mem better _ _ hp
+    rw [← hl] at hm
+    obtain ⟨k, h1, h2, h3⟩ := (mem_cleanScalars_attr cs ind f hf n i hi _).1 hm
+    refine ⟨k, h1, h2, ?_⟩
+    rw [hp, h3]
+
+end windows
+
+/-- `movement.highest` over a candle field: returns the field value (type kept) of a candle of the
+window `max(i−n, 0) … i` that bounds the whole window from above -/
+theorem highest_window (cs : List (Candle K)) (ind : String) (f : Candle K → Num K)
+    (hf : ∀ c, readingByCandle c ind = .num (f c)) (n i : Nat) (hn : 1 ≤ n) (hi : i < cs.length) :
+    ∃ k, i - n ≤ k ∧ k ≤ i ∧ Mov.highest cs ind (n : Int) (i : Int) = .ok (.num (f (cs.getD k default))) ∧
+      ∀ k', i - n ≤ k' → k' ≤ i → (f (cs.getD k' default)).toF ≤ (f (cs.getD k default)).toF := by
+  obtain ⟨k, h1, h2, h3⟩ := extreme_total cs ind f hf (fun y best => y.gt best) n i hn hi
+  refine ⟨k, h1, h2, h3, ?_⟩
+  obtain ⟨i', hi', _, hmax⟩ := highest_spec cs ind n i _ h3
+  rw [absIndex_nat i cs.length hi] at hi'
+  cases hi'
+  intro k' h1' h2'
+  exact hmax _ ((mem_cleanScalars_attr cs ind f hf n i hi _).2 ⟨k', h1', h2', rfl⟩)
+
+theorem lowest_window (cs : List (Candle K)) (ind : String) (f : Candle K → Num K)
+    (hf : ∀ c, readingByCandle c ind = .num (f c)) (n i : Nat) (hn : 1 ≤ n) (hi : i < cs.length) :
+    ∃ k, i - n ≤ k ∧ k ≤ i ∧ Mov.lowest cs ind (n : Int) (i : Int) = .ok (.num (f (cs.getD k default))) ∧
+      ∀ k', i - n ≤ k' → k' ≤ i → (f (cs.getD k default)).toF ≤ (f (cs.getD k' default)).toF := by
+  obtain ⟨k, h1, h2, h3⟩ := extreme_total cs ind f hf (fun y best => y.lt best) n i hn hi
+  refine ⟨k, h1, h2, h3, ?_⟩
+  obtain ⟨i', hi', _, hmin⟩ := lowest_spec cs ind n i _ h3
+  rw [absIndex_nat i cs.length hi] at hi'
+  cases hi'
+  intro k' h1' h2'
+  exact hmin _ ((mem_cleanScalars_attr cs ind f hf n i hi _).2 ⟨k', h1', h2', rfl⟩)
+
+/-! ### the textbook window extremes -/
+
+/-- highest of `x j, x (j−1), …, x (j−w)`; indices are cut at candle 0 (`j − d` is the natural
+subtraction: a window reaching before the first candle just repeats `x 0`) -/
+def winMax (x : Nat → K) (j : Nat) : Nat → K
+  | 0 => x j
+  | w + 1 => max (winMax x j w) (x (j - (w + 1)))
+
+/-- lowest of `x j, x (j−1), …, x (j−w)` (cut at candle 0) -/
+def winMin (x : Nat → K) (j : Nat) : Nat → K
+  | 0 => x j
+  | w + 1 => min (winMin x j w) (x (j - (w + 1)))
+
+theorem winMax_ge (x : Nat → K) (j w : Nat) : ∀ d, d ≤ w → x (j - d) ≤ winMax x j w := by
+  induction w with
+  | zero => intro d hd; have : d = 0 := by omega
+            subst this; exact le_refl _
+  | succ w ih =>
+    intro d hd
+    by_cases h : d ≤ w
+    · exact le_trans (ih d h) (le_max_left _ _)
+    · have : d = w + 1 := by omega
+      subst this; exact le_max_right _ _
+
+theorem winMax_mem (x : Nat → K) (j w : Nat) : ∃ d, d ≤ w ∧ winMax x j w = x (j - d) := by
+  induction w with
+  | zero => exact ⟨0, le_refl _, rfl⟩
+  | succ w ih =>
+    obtain ⟨d, hd, he⟩ := ih
+    rcases max_choice (winMax x j w) (x (j - (w + 1))) with h | h
+    · exact ⟨d, by omega, by rw [winMax, h, he]⟩
+    · exact ⟨w + 1, le_refl _, by rw [winMax, h]⟩
+
+theorem winMin_le (x : Nat → K) (j w : Nat) : ∀ d, d ≤ w → winMin x j w ≤ x (j - d) := by
+  induction w with
+  | zero => intro d hd; have : d = 0 := by omega
+            subst this; exact le_refl _
+  | succ w ih =>
+    intro d hd
+    by_cases h : d ≤ w
+    · exact le_trans (min_le_left _ _) (ih d h)
+    · have : d = w + 1 := by omega
+      subst this; exact min_le_right _ _
+
+theorem winMin_mem (x : Nat → K) (j w : Nat) : ∃ d, d ≤ w ∧ winMin x j w = x (j - d) := by
+  induction w with
+  | zero => exact ⟨0, le_refl _, rfl⟩
+  | succ w ih =>
+    obtain ⟨d, hd, he⟩ := ih
+    rcases min_choice (winMin x j w) (x (j - (w + 1))) with h | h
+    · exact ⟨d, by omega, by rw [winMin, h, he]⟩
+    · exact ⟨w + 1, le_refl _, by rw [winMin, h]⟩
+
+/-- the window encloses the candle's own value -/
+theorem winMax_self (x : Nat → K) (j w : Nat) : x j ≤ winMax x j w := winMax_ge x j w 0 (Nat.zero_le _)
+theorem winMin_self (x : Nat → K) (j w : Nat) : winMin x j w ≤ x j := winMin_le x j w 0 (Nat.zero_le _)
+theorem winMin_le_winMax (l h : Nat → K) (hlh : ∀ k, l k ≤ h k) (j w : Nat) : winMin l j w ≤ winMax h j w :=
+  le_trans (winMin_self l j w) (le_trans (hlh j) (winMax_self h j w))
+
+/-- a value attained in the window `max(j−w,0) … j` that bounds the window from above IS `winMax` -/
+theorem winMax_unique (x : Nat → K) (j w k : Nat) (h1 : j - w ≤ k) (h2 : k ≤ j)
+    (hub : ∀ k', j - w ≤ k' → k' ≤ j → x k' ≤ x k) : x k = winMax x j w := by
+  apply le_antisymm
+  · have := winMax_ge x j w (j - k) (by omega)
+    rwa [show j - (j - k) = k by omega] at this
+  · obtain ⟨d, hd, he⟩ := winMax_mem x j w
+    rw [he]; exact hub _ (by omega) (by omega)
+
+theorem winMin_unique (x : Nat → K) (j w k : Nat) (h1 : j - w ≤ k) (h2 : k ≤ j)
+    (hlb : ∀ k', j - w ≤ k' → k' ≤ j → x k ≤ x k') : x k = winMin x j w := by
+  apply le_antisymm
+  · obtain ⟨d, hd, he⟩ := winMin_mem x j w
+    rw [he]; exact hlb _ (by omega) (by omega)
+  · have := winMin_le x j w (j - k) (by omega)
+    rwa [show j - (j - k) = k by omega] at this
+
+/-- field `fld` of raw candle `j` as the stored number (type kept) -/
+def numAt (fld : Candle K → Num K) (raw : List (Candle K)) (j : Nat) : Num K := fld (raw.getD j default)
+
+theorem fieldAt_numAt (fld : Candle K → Num K) (raw : List (Candle K)) (j : Nat) :
+    fieldAt fld raw j = (numAt fld raw j).toF := rfl
+
+/-! ### the step context of a leaf: highs and lows are the raw ones -/
+
+section stepwin
+variable (nm : String) (raw : List (Candle K)) (vs : List (Val K)) (m : Nat)
+
+theorem stepCtx_getD (hm : m < raw.length) (hvs : vs.length = m) (fld : Candle K → Num K)
+    (hfld : ∀ (v : Val K) (c : Candle K), fld (setKey false nm v c) = fld c) (k : Nat) (hk : k ≤ m) :
+    fld ((stepCtx nm raw vs m).cs.getD k default) = fld (raw.getD k default) := by
+  rw [List.getD_eq_getElem?_getD]
+  by_cases hkm : k < m
+  · rw [stepCtx_lt nm raw vs m hm hvs k hkm]; exact hfld _ _
+  · have : k = m := by omega
+    subst this
+    rw [stepCtx_eq nm raw vs k hm hvs]; rfl
+
+theorem stepCtx_highest (hm : m < raw.length) (hvs : vs.length = m) (w : Nat) (hw : 1 ≤ w) :
+    ∃ k, m - w ≤ k ∧ k ≤ m ∧
+      Mov.highest (stepCtx nm raw vs m).cs "high" (w : Int) (m : Int) = .ok (.num (numAt (·.h) raw k)) ∧
+      (numAt (·.h) raw k).toF = winMax (fieldAt (·.h) raw) m w := by
+  have hlen := stepCtx_length nm raw vs m hm hvs
+  obtain ⟨k, h1, h2, h3, h4⟩ := highest_window (stepCtx nm raw vs m).cs "high" (·.h)
+    (fun c => readingByCandle_high c) w m hw (by rw [hlen]; omega)
+  have hg : ∀ k', k' ≤ m → ((stepCtx nm raw vs m).cs.getD k' default).h = (raw.getD k' default).h :=
+    fun k' hk' => stepCtx_getD nm raw vs m hm hvs (·.h) (fun _ _ => rfl) k' hk'
+  refine ⟨k, h1, h2, ?_, ?_⟩
+  · rw [h3]; simp only [hg k h2]; rfl
+  · refine winMax_unique (fieldAt (·.h) raw) m w k h1 h2 ?_
+    intro k' h1' h2'
+    have := h4 k' h1' h2'
+    simp only [hg k h2, hg k' h2'] at this
+    exact this
+
+theorem stepCtx_lowest (hm : m < raw.length) (hvs : vs.length = m) (w : Nat) (hw : 1 ≤ w) :
+    ∃ k, m - w ≤ k ∧ k ≤ m ∧
+      Mov.lowest (stepCtx nm raw vs m).cs "low" (w : Int) (m : Int) = .ok (.num (numAt (·.l) raw k)) ∧
+      (numAt (·.l) raw k).toF = winMin (fieldAt (·.l) raw) m w := by
+  have hlen := stepCtx_length nm raw vs m hm hvs
+  obtain ⟨k, h1, h2, h3, h4⟩ := lowest_window (stepCtx nm raw vs m).cs "low" (·.l)
+    (fun c => readingByCandle_low c) w m hw (by rw [hlen]; omega)
+  have hg : ∀ k', k' ≤ m → ((stepCtx nm raw vs m).cs.getD k' default).l = (raw.getD k' default).l :=
+    fun k' hk' => stepCtx_getD nm raw vs m hm hvs (·.l) (fun _ _ => rfl) k' hk'
+  refine ⟨k, h1, h2, ?_, ?_⟩
+  · rw [h3]; simp only [hg k h2]; rfl
+  · refine winMin_unique (fieldAt (·.l) raw) m w k h1 h2 ?_
+    intro k' h1' h2'
+    have := h4 k' h1' h2'
+    simp only [hg k h2, hg k' h2'] at this
+    exact this
+
+end stepwin
+
+/-! ## HighestLowest -/
+
+/-- what the whole-series theorem says of the HighestLowest reading at index `j` (EVERY index: the
+indicator has no warm-up): a dict `{low, high}` holding the low / high of two candles `kl`, `kh` of
+the window `max(j−p, 0) … j` (`p + 1` candles once `j ≥ p`), with their type (an int stays an int,
+a float is rounded), whose values are the lowest low / highest high of that window -/
+def HlOK (p n : Nat) (hN lN : Nat → Num K) (j : Nat) (v : Val K) : Prop :=
+  ∃ kl kh, (j - p ≤ kl ∧ kl ≤ j) ∧ (j - p ≤ kh ∧ kh ≤ j) ∧
+    v = .dict [("low", .num ((lN kl).roundBy n)), ("high", .num ((hN kh).roundBy n))] ∧
+    (lN kl).toF = winMin (fun k => (lN k).toF) j p ∧ (hN kh).toF = winMax (fun k => (hN k).toF) j p
+
+/-- **C05 for the whole HighestLowest series**, period `p ≥ 1` (`p = 0` makes `movement.highest`
+return `False`).  Readings from candle 0 on; window of `p + 1` candles, cut at candle 0. -/
+theorem hl_series (p : Nat) (hp : 1 ≤ p) (nm : String) (n : Nat)
+    (raw : List (Candle K)) (hraw : ∀ c ∈ raw, Plain c) :
+    ∃ vs : List (Val K), vs.length = raw.length ∧
+      rowMajor (mkTop (.hl p) nm n) raw = .ok (deco nm raw vs) ∧
+      ∀ j, j < raw.length → HlOK p n (numAt (·.h) raw) (numAt (·.l) raw) j (vs.getD j .none) := by
+  refine series_induct (mkTop (.hl p) nm n) nm rfl rfl raw _ ?_
+  intro m hm vs hvs _
+  change ∃ v, Calc.hl (stepCtx nm raw vs m) p = .ok v ∧ HlOK p n _ _ m (v.roundBy n)
+  obtain ⟨kh, a1, a2, a3, a4⟩ := stepCtx_highest nm raw vs m hm hvs p hp
+  obtain ⟨kl, b1, b2, b3, b4⟩ := stepCtx_lowest nm raw vs m hm hvs p hp
+  exact ⟨_, hl_def (stepCtx nm raw vs m) p _ _ b3 a3, kl, kh, ⟨b1, b2⟩, ⟨a1, a2⟩, rfl, b4, a4⟩
+
+/-! ## Donchian -/
+
+/-- name hypotheses of a Donchian node: an ordinary key whose `DCU` field is addressed by a dotted name -/
+structure DcNames (nm : String) : Prop where
+  key : IsKey nm
+  dcu : splitDot (nm ++ ".DCU") = [nm, "DCU"]
+
+/-- the reading stored during warm-up -/
+def dcNone : Val K := .dict [("DCL", .none), ("DCM", .none), ("DCU", .none)]
+
+/-- what the whole-series theorem says of the Donchian reading at index `j`: all fields `None` up
+to index `p − 2`; from index `p − 1` on `DCL` / `DCU` hold the low / high of two candles `kl`, `kh`
+of the window `j−(p−1) … j` (the last `p` candles) with their type (an int stays an int, a float is
+rounded), whose values are the lowest low / highest high of that window, and `DCM` is the rounding
+of the mean of the two UNROUNDED bounds -/
+def DcOK (p n : Nat) (hN lN : Nat → Num K) (j : Nat) (v : Val K) : Prop :=
+  (j + 1 < p → v = dcNone) ∧
+  (p ≤ j + 1 → ∃ kl kh, (j - (p - 1) ≤ kl ∧ kl ≤ j) ∧ (j - (p - 1) ≤ kh ∧ kh ≤ j) ∧
+    v = .dict [("DCL", .num ((lN kl).roundBy n)),
+               ("DCM", .num (.flt (PyF.round n (((hN kh).toF + (lN kl).toF) / 2)))),
+               ("DCU", .num ((hN kh).roundBy n))] ∧
+    (lN kl).toF = winMin (fun k => (lN k).toF) j (p - 1) ∧ (hN kh).toF = winMax (fun k => (hN k).toF) j (p - 1))
+
+theorem stepCtx_prev_dcu (nm : String) (hn : DcNames nm) (raw : List (Candle K)) (vs : List (Val K)) (m : Nat)
+    (hm : m < raw.length) (hvs : vs.length = m) (hraw : ∀ c ∈ raw, Plain c) :
+    (stepCtx nm raw vs m).prevReading (nm ++ ".DCU")
+      = .ok (if m = 0 then .none else (vs.getD (m - 1) .none).nested "DCU") := by
+  unfold Ctx.prevReading
+  have hl := stepCtx_length nm raw vs m hm hvs
+  by_cases h0 : m = 0
+  · subst h0; simp [stepCtx]
+  · have h1 : ((stepCtx nm raw vs m).cs.length == 0) = false := by rw [hl]; simp
+    have h2 : ((stepCtx nm raw vs m).i == 0) = false := by simp [stepCtx]; omega
+    simp only [h1, h2, Bool.or_self, Bool.false_eq_true, if_false, h0]
+    have e : (stepCtx nm raw vs m).i - 1 = ((m - 1 : Nat) : Int) := by simp [stepCtx]; omega
+    rw [e]
+    unfold Ctx.reading
+    simp only [Option.getD_some]
+    rw [pyIndex_nonneg _ _ (by omega)]
+    simp only [Int.toNat_natCast]
+    rw [stepCtx_lt nm raw vs m hm hvs (m - 1) (by omega)]
+    simp only [getOrIndexError, pym_bind_ok, pym_pure]
+    unfold readingByCandle
+    rw [hn.dcu]
+    simp [setKey, dlookup_dset_self]
+
+/-- **C05 for the whole Donchian series**, period `p ≥ 2` (`p = 1` makes `movement.highest` return
+`False`).  `None` fields up to index `p − 2`, first reading at index `p − 1`, window = the last `p`
+candles. -/
+theorem donchian_series (p : Nat) (hp : 2 ≤ p) (nm : String) (n : Nat) (hn : DcNames nm)
+    (raw : List (Candle K)) (hraw : ∀ c ∈ raw, Plain c) :
+    ∃ vs : List (Val K), vs.length = raw.length ∧
+      rowMajor (mkTop (.donchian p) nm n) raw = .ok (deco nm raw vs) ∧
+      ∀ j, j < raw.length → DcOK p n (numAt (·.h) raw) (numAt (·.l) raw) j (vs.getD j .none) := by
+  refine series_induct (mkTop (.donchian p) nm n) nm rfl rfl raw _ ?_
+  intro m hm vs hvs hQ
+  change ∃ v, Calc.donchian (stepCtx nm raw vs m) p = .ok v ∧ DcOK p n _ _ m (v.roundBy n)
+  have hprev := stepCtx_prev_dcu nm hn raw vs m hm hvs hraw
+  have hper : (stepCtx nm raw vs m).readingPeriod (p : Int) "high" (some (stepCtx nm raw vs m).i) = decide (p ≤ m + 1) :=
+    stepCtx_period nm "high" (·.h) raw vs m hm hvs noDot_high (fun _ => rfl) p (by omega)
+  by_cases h1 : m + 1 < p
+  · have hpn : (stepCtx nm raw vs m).prevReading ((stepCtx nm raw vs m).name ++ ".DCU") = .ok .none := by
+      show (stepCtx nm raw vs m).prevReading (nm ++ ".DCU") = _
+      rw [hprev]
+      by_cases h0 : m = 0
+      · simp [h0]
+      · simp only [h0, if_false]
+        rw [(hQ (m - 1) (by omega)).1 (by omega)]
+        rfl
+    refine ⟨_, donchian_none _ p hpn (by rw [hper]; simp; omega), fun _ => rfl, fun h => by omega⟩
+  · have e : ((p : Int) - 1) = ((p - 1 : Nat) : Int) := by omega
+    obtain ⟨kh, a1, a2, a3, a4⟩ := stepCtx_highest nm raw vs m hm hvs (p - 1) (by omega)
+    obtain ⟨kl, b1, b2, b3, b4⟩ := stepCtx_lowest nm raw vs m hm hvs (p - 1) (by omega)
+    have hd := donchian_def (stepCtx nm raw vs m) p _ (numAt (·.h) raw kh) (numAt (·.l) raw kl)
+      (show (stepCtx nm raw vs m).prevReading (nm ++ ".DCU") = _ from hprev)
+      (Or.inr (by rw [hper]; simp; omega)) (by rw [e]; exact a3) (by rw [e]; exact b3)
+    exact ⟨_, hd, fun h => by omega, fun _ => ⟨kl, kh, ⟨b1, b2⟩, ⟨a1, a2⟩, rfl, b4, a4⟩⟩
+
+/-! ## Aroon -/
+
+/-- bars since the extreme of `x j, x (j−1), …, x (j−w)` in the order `lt` ("strictly better"),
+scanning from the newest candle back: a later candle replaces the current extreme only if it is
+STRICTLY better, so ties go to the most recent candle -/
+def extBar (lt : K → K → Bool) (x : Nat → K) (j : Nat) : Nat → Nat
+  | 0 => 0
+  | w + 1 => if lt (x (j - extBar lt x j w)) (x (j - (w + 1))) then w + 1 else extBar lt x j w
+
+/-- bars since the most recent highest value of the window `j−w … j` -/
+def hiBar (x : Nat → K) (j w : Nat) : Nat := extBar (fun a b => decide (a < b)) x j w
+/-- bars since the most recent lowest value of the window `j−w … j` -/
+def loBar (x : Nat → K) (j w : Nat) : Nat := extBar (fun a b => decide (b < a)) x j w
+
+theorem extBar_le (lt : K → K → Bool) (x : Nat → K) (j w : Nat) : extBar lt x j w ≤ w := by
+  induction w with
+  | zero => exact le_refl _
+  | succ w ih => unfold extBar; split_ifs <;> omega
+
+/-- `hiBar` is the offset of the MOST RECENT candle attaining the window's highest value -/
+theorem hiBar_spec (x : Nat → K) (j w : Nat) :
+    x (j - hiBar x j w) = winMax x j w ∧ ∀ d, d < hiBar x j w → x (j - d) < winMax x j w := by
+  induction w with
+  | zero => exact ⟨rfl, fun d hd => absurd hd (Nat.not_lt_zero d)⟩
+  | succ w ih =>
+    obtain ⟨h1, h2⟩ := ih
+    have hle : hiBar x j w ≤ w := extBar_le _ x j w
+    by_cases hc : x (j - hiBar x j w) < x (j - (w + 1))
+    · have e : hiBar x j (w + 1) = w + 1 := by
+        show extBar _ x j (w + 1) = _
+        unfold extBar
+        rw [if_pos (by simpa [hiBar] using hc)]
+      rw [h1] at hc
+      rw [e, winMax, max_eq_right hc.le]
+      refine ⟨rfl, fun d hd => lt_of_le_of_lt (winMax_ge x j w d (by omega)) hc⟩
+    · have e : hiBar x j (w + 1) = hiBar x j w := by
+        show extBar _ x j (w + 1) = extBar _ x j w
+        conv_lhs => unfold extBar
+        rw [if_neg (by simpa [hiBar] using hc)]
+      rw [h1] at hc
+      rw [e, winMax, max_eq_left (not_lt.1 hc)]
+      exact ⟨h1, h2⟩
+
+theorem loBar_spec (x : Nat → K) (j w : Nat) :
+    x (j - loBar x j w) = winMin x j w ∧ ∀ d, d < loBar x j w → winMin x j w < x (j - d) := by
+  induction w with
+  | zero => exact ⟨rfl, fun d hd => absurd hd (Nat.not_lt_zero d)⟩
+  | succ w ih =>
+    obtain ⟨h1, h2⟩ := ih
+    have hle : loBar x j w ≤ w := extBar_le _ x j w
+    by_cases hc : x (j - (w + 1)) < x (j - loBar x j w)
+    · have e : loBar x j (w + 1) = w + 1 := by
+        show extBar _ x j (w + 1) = _
+        unfold extBar
+        rw [if_pos (by simpa [loBar] using hc)]
+      rw [h1] at hc
+      rw [e, winMin, min_eq_right hc.le]
+      refine ⟨rfl, fun d hd => lt_of_lt_of_le hc (winMin_le x j w d (by omega))⟩
+    · have e : loBar x j (w + 1) = loBar x j w := by
+        show extBar _ x j (w + 1) = extBar _ x j w
+        conv_lhs => unfold extBar
+        rw [if_neg (by simpa [loBar] using hc)]
+      rw [h1] at hc
+      rw [e, winMin, min_eq_left (not_lt.1 hc)]
+      exact ⟨h1, h2⟩
+
+/-- the scan of `highestbar` / `lowestbar` over the offsets `0 … w` of a candle-field window -/
+theorem bar_fold (cs : List (Candle K)) (ind : String) (f : Candle K → Num K)
+    (hf : ∀ c, readingByCandle c ind = .num (f c)) (better : Num K → Num K → Bool) (lt : K → K → Bool)
+    (hb : ∀ a b : Num K, better a b = lt a.toF b.toF) (i : Nat) (hi : i < cs.length) :
+    ∀ w, w ≤ i →
+      ((List.range (w + 1)).map fun k : Nat => (i : Int) - (k : Int)).zipIdx.foldlM (barStep cs ind better) (none, 0)
+        = .ok (some (f (cs.getD (i - extBar lt (fun k => (f (cs.getD k default)).toF) i w) default)),
+               ((extBar lt (fun k => (f (cs.getD k default)).toF) i w : Nat) : Int)) := by
+  intro w
+  induction w with
+  | zero =>
+    intro _
+    have hr : readingByIndex cs ind ((i : Int) - ((0 : Nat) : Int)) = .num (f (cs.getD i default)) := by
+      have : (i : Int) - ((0 : Nat) : Int) = (i : Int) := by simp
+      rw [this, readingByIndex_nat cs ind i hi, hf]
+    simp only [List.range_succ, List.range_zero, List.nil_append, List.map_cons, List.map_nil,
+      List.zipIdx_singleton, List.foldlM_cons, List.foldlM_nil]
+    unfold barStep
+    simp only [hr, Val.isNumber, Bool.not_true, Bool.false_eq_true, if_false, Val.asNum_num, pym_bind_ok]
+    rfl
+  | succ w ih =>
+    intro hw
+    rw [List.range_succ, List.map_append, List.zipIdx_append, List.foldlM_append, ih (by omega)]
+    simp only [pym_bind_ok, List.map_cons, List.map_nil, List.zipIdx_singleton, List.length_map, List.length_range,
+      Nat.zero_add, List.foldlM_cons, List.foldlM_nil]
+    have hr : readingByIndex cs ind ((i : Int) - ((w + 1 : Nat) : Int)) = .num (f (cs.getD (i - (w + 1)) default)) := by
+      have : (i : Int) - ((w + 1 : Nat) : Int) = ((i - (w + 1) : Nat) : Int) := by omega
+      rw [this, readingByIndex_nat cs ind _ (by omega), hf]
+    unfold barStep
+    simp only [hr, Val.isNumber, Bool.not_true, Bool.false_eq_true, if_false, Val.asNum_num, pym_bind_ok, hb]
+    conv_rhs => unfold extBar
+    by_cases hc : lt (f (cs.getD (i - extBar lt (fun k => (f (cs.getD k default)).toF) i w) default)).toF
+        (f (cs.getD (i - (w + 1)) default)).toF = true
+    · simp only [hc, if_true]; rfl
+    · simp only [hc, if_false]; rfl
+
+/-- `movement.highestbar/lowestbar` over a full candle-field window of `w + 1` candles -/
+theorem extremeBar_window (cs : List (Candle K)) (ind : String) (f : Candle K → Num K)
+    (hf : ∀ c, readingByCandle c ind = .num (f c)) (better : Num K → Num K → Bool) (lt : K → K → Bool)
+    (hb : ∀ a b : Num K, better a b = lt a.toF b.toF) (i w : Nat) (hi : i < cs.length) (hw : w ≤ i) :
+    Mov.extremeBar cs ind ((w : Int) + 1) (i : Int) better
+      = .ok (.int ((extBar lt (fun k => (f (cs.getD k default)).toF) i w : Nat) : Int)) := by
+  unfold Mov.extremeBar
+  rw [absIndex_nat i cs.length hi]
+  have e1 : (if (i : Int) - ((w : Int) + 1) < -1 then (-1 : Int) else (i : Int) - ((w : Int) + 1))
+      = (i : Int) - ((w : Int) + 1) := by
+    rw [if_neg (by omega)]
+  have e2 : pyRangeDown (i : Int) ((i : Int) - ((w : Int) + 1))
+      = (List.range (w + 1)).map fun k : Nat => (i : Int) - (k : Int) := by
+    unfold pyRangeDown
+    have : ((i : Int) - ((i : Int) - ((w : Int) + 1))).toNat = w + 1 := by omega
+    rw [this]
+  show (do
+      let r ← (pyRangeDown (i : Int) (if (i : Int) - ((w : Int) + 1) < -1 then -1 else (i : Int) - ((w : Int) + 1))).zipIdx.foldlM
+        (barStep cs ind better) (none, 0)
+      pure (Val.int r.2)) = _
+  rw [e1, e2, bar_fold cs ind f hf better lt hb i hi w hw]
+  rfl
+
+theorem extBar_congr (lt : K → K → Bool) (x y : Nat → K) (j : Nat) (h : ∀ k, k ≤ j → x k = y k) :
+    ∀ w, extBar lt x j w = extBar lt y j w := by
+  intro w
+  induction w with
+  | zero => rfl
+  | succ w ih =>
+    unfold extBar
+    rw [ih, h _ (Nat.sub_le _ _), h _ (Nat.sub_le _ _)]
+
+/-- Aroon value for an extreme `b` bars back: `100·(p − b)/p` -/
+def aroonOf (p b : Nat) : K := ((p : K) - (b : K)) / (p : K) * 100
+
+theorem aroonOf_range (p b : Nat) (hp : 1 ≤ p) (hb : b ≤ p) : (0 : K) ≤ aroonOf p b ∧ aroonOf p b ≤ (100 : K) := by
+  have hpK : (0 : K) < p := by exact_mod_cast (by omega : 0 < p)
+  have h0 : (0 : K) ≤ b := by exact_mod_cast Nat.zero_le b
+  have h1 : (b : K) ≤ p := by exact_mod_cast hb
+  unfold aroonOf
+  constructor
+  · exact mul_nonneg (div_nonneg (by linarith) hpK.le) (by norm_num)
+  · have : ((p : K) - b) / p ≤ 1 := by rw [div_le_one hpK]; linarith
+    linarith
+
+theorem round_neg_hundred (n : Nat) : PyF.round n (-100 : K) = -100 := by
+  have h := LawfulPyF.round_grid (K := K) n (-100 * 10 ^ n)
+  have hp : (10 : K) ^ n ≠ 0 := by positivity
+  have e : (((-100 * 10 ^ n : Int)) : K) / 10 ^ n = -100 := by
+    push_cast; field_simp
+  rw [e] at h; exact h
+
+/-- the reading stored during warm-up -/
+def aroonNone : Val K := .dict [("AROONU", .none), ("AROOND", .none), ("AROONOSC", .none)]
+
+/-- the reading stored from the warm-up index on, from the two bar offsets -/
+def aroonVal (p n hb lb : Nat) : Val K :=
+  .dict [("AROONU", .num (.flt (PyF.round n (aroonOf p hb)))),
+         ("AROOND", .num (.flt (PyF.round n (aroonOf p lb)))),
+         ("AROONOSC", .num (.flt (PyF.round n (aroonOf p hb - aroonOf p lb))))]
+
+/-- what the whole-series theorem says of the Aroon reading at index `j`: all fields `None` up to
+index `p − 1`; from index `p` on `AROONU = round n (100·(p − hiBar)/p)` with `hiBar` = bars since
+the most recent highest high of the last `p + 1` candles, `AROOND` likewise for the lowest low, and
+`AROONOSC` = the rounding of the UNROUNDED difference -/
+def AroonOK (p n : Nat) (h l : Nat → K) (j : Nat) (v : Val K) : Prop :=
+  (j < p → v = aroonNone) ∧ (p ≤ j → v = aroonVal p n (hiBar h j p) (loBar l j p))
+
+theorem lt_dec (a b : Num K) : a.lt b = decide (a.toF < b.toF) := by
+  rw [Bool.eq_iff_iff, Num.lt_iff]; simp
+
+/-- **C06 for the whole Aroon series**, period `p ≥ 1`.  `None` fields up to index `p − 1`, first
+reading at index `p`, window = the last `p + 1` candles, most recent extreme on ties. -/
+theorem aroon_series (p : Nat) (hp : 1 ≤ p) (nm : String) (n : Nat)
+    (raw : List (Candle K)) (hraw : ∀ c ∈ raw, Plain c) :
+    ∃ vs : List (Val K), vs.length = raw.length ∧
+      rowMajor (mkTop (.aroon p) nm n) raw = .ok (deco nm raw vs) ∧
+      ∀ j, j < raw.length → AroonOK p n (fieldAt (·.h) raw) (fieldAt (·.l) raw) j (vs.getD j .none) := by
+  refine series_induct (mkTop (.aroon p) nm n) nm rfl rfl raw _ ?_
+  intro m hm vs hvs _
+  change ∃ v, Calc.aroon (stepCtx nm raw vs m) p = .ok v ∧ AroonOK p n _ _ m (v.roundBy n)
+  have hper : (stepCtx nm raw vs m).readingPeriod ((p : Int) + 1) "high" = decide (p + 1 ≤ m + 1) := by
+    have := stepCtx_period nm "high" (·.h) raw vs m hm hvs noDot_high (fun _ => rfl) (p + 1) (by omega)
+    rw [show ((p + 1 : Nat) : Int) = (p : Int) + 1 by push_cast; rfl] at this
+    exact this
+  by_cases h1 : m < p
+  · exact ⟨_, aroon_none _ p (by rw [hper]; simp; omega), fun _ => rfl, fun h => by omega⟩
+  · have hlen := stepCtx_length nm raw vs m hm hvs
+    have hH := extremeBar_window (stepCtx nm raw vs m).cs "high" (·.h) (fun c => readingByCandle_high c)
+      (fun best c => best.lt c) (fun a b => decide (a < b)) (fun a b => lt_dec a b) m p (by rw [hlen]; omega) (by omega)
+    have hL := extremeBar_window (stepCtx nm raw vs m).cs "low" (·.l) (fun c => readingByCandle_low c)
+      (fun best c => best.gt c) (fun a b => decide (b < a)) (fun a b => lt_dec b a) m p (by rw [hlen]; omega) (by omega)
+    rw [extBar_congr _ _ (fieldAt (·.h) raw) m
+      (fun k hk => congrArg Num.toF (stepCtx_getD nm raw vs m hm hvs (·.h) (fun _ _ => rfl) k hk))] at hH
+    rw [extBar_congr _ _ (fieldAt (·.l) raw) m
+      (fun k hk => congrArg Num.toF (stepCtx_getD nm raw vs m hm hvs (·.l) (fun _ _ => rfl) k hk))] at hL
+    have hpK : (((p : Nat) : Int) : K) ≠ 0 := by
+      have : (p : K) ≠ 0 := by exact_mod_cast (by omega : p ≠ 0)
+      simpa using this
+    have hd := aroon_def (stepCtx nm raw vs m) p _ _ (by rw [hper]; simp; omega) hH hL hpK
+    refine ⟨_, hd, fun h => by omega, fun _ => ?_⟩
+    simp [Val.roundBy, Scalar.roundBy, Num.roundBy, Num.mul, Num.sub, Num.toF, LawfulPyF.mul_eq, LawfulPyF.sub_eq,
+      LawfulPyF.ofInt_eq, aroonVal, aroonOf, hiBar, loBar]
+
+/-! ## the statements read off the stored fields -/
+
+theorem numNear_roundBy (n : Nat) (t : Num K) : NumNear n t.toF (.num (t.roundBy n)) :=
+  ⟨_, rfl, Num.roundBy_err n t⟩
+
+/-- **HighestLowest, field by field**: `low` / `high` are numbers within `ε` of the lowest low /
+highest high of the window (exactly equal for int prices), and the window encloses the candle's
+own low and high. -/
+theorem hlOK_near (p n : Nat) (hN lN : Nat → Num K) (j : Nat) (v : Val K) (h : HlOK p n hN lN j v) :
+    NumNear n (winMin (fun k => (lN k).toF) j p) (v.nested "low") ∧
+    NumNear n (winMax (fun k => (hN k).toF) j p) (v.nested "high") ∧
+    winMin (fun k => (lN k).toF) j p ≤ (lN j).toF ∧ (hN j).toF ≤ winMax (fun k => (hN k).toF) j p := by
+  obtain ⟨kl, kh, _, _, rfl, e1, e2⟩ := h
+  refine ⟨?_, ?_, winMin_self (fun k => (lN k).toF) j p, winMax_self (fun k => (hN k).toF) j p⟩
+  · rw [← e1]; exact numNear_roundBy n _
+  · rw [← e2]; exact numNear_roundBy n _
+
+/-- **Donchian, field by field** (from index `p − 1` on): `DCL` / `DCU` within `ε` of the lowest
+low / highest high of the last `p` candles, `DCM` within `ε` of their mean; the exact channel
+encloses the candle's own low and high and its own middle. -/
+theorem dcOK_near (p n : Nat) (hN lN : Nat → Num K) (j : Nat) (v : Val K) (h : DcOK p n hN lN j v)
+    (hj : p ≤ j + 1) :
+    NumNear n (winMin (fun k => (lN k).toF) j (p - 1)) (v.nested "DCL") ∧
+    NumNear n (winMax (fun k => (hN k).toF) j (p - 1)) (v.nested "DCU") ∧
+    NumNear n ((winMax (fun k => (hN k).toF) j (p - 1) + winMin (fun k => (lN k).toF) j (p - 1)) / 2)
+      (v.nested "DCM") ∧
+    winMin (fun k => (lN k).toF) j (p - 1) ≤ (lN j).toF ∧ (hN j).toF ≤ winMax (fun k => (hN k).toF) j (p - 1) := by
+  obtain ⟨kl, kh, _, _, rfl, e1, e2⟩ := h.2 hj
+  refine ⟨?_, ?_, ?_, winMin_self (fun k => (lN k).toF) j _, winMax_self (fun k => (hN k).toF) j _⟩
+  · rw [← e1]; exact numNear_roundBy n _
+  · rw [← e2]; exact numNear_roundBy n _
+  · rw [← e1, ← e2]
+    exact ⟨_, rfl, LawfulPyF.round_err n _⟩
+
+/-- **Aroon, field by field** (from index `p` on): `AROONU`, `AROOND` are floats within `ε` of
+`100·(p − bars)/p` and inside `[0, 100]`; `AROONOSC` is within `ε` of their exact difference and
+inside `[−100, 100]`. -/
+theorem aroonOK_near (p n : Nat) (hp : 1 ≤ p) (h l : Nat → K) (j : Nat) (v : Val K)
+    (hv : AroonOK p n h l j v) (hj : p ≤ j) :
+    ∃ u d o : K, v.nested "AROONU" = .flt u ∧ v.nested "AROOND" = .flt d ∧ v.nested "AROONOSC" = .flt o ∧
+      |u - aroonOf p (hiBar h j p)| ≤ eps K n ∧ 0 ≤ u ∧ u ≤ 100 ∧
+      |d - aroonOf p (loBar l j p)| ≤ eps K n ∧ 0 ≤ d ∧ d ≤ 100 ∧
+      |o - (aroonOf p (hiBar h j p) - aroonOf p (loBar l j p))| ≤ eps K n ∧ -100 ≤ o ∧ o ≤ 100 := by
+  rw [hv.2 hj]
+  obtain ⟨a0, a1⟩ := aroonOf_range (K := K) p (hiBar h j p) hp (extBar_le _ h j p)
+  obtain ⟨b0, b1⟩ := aroonOf_range (K := K) p (loBar l j p) hp (extBar_le _ l j p)
+  refine ⟨_, _, _, rfl, rfl, rfl, LawfulPyF.round_err n _, ?_, ?_, LawfulPyF.round_err n _, ?_, ?_,
+    LawfulPyF.round_err n _, ?_, ?_⟩
+  · rw [← round_zero (K := K) n]; exact LawfulPyF.round_mono n a0
+  · rw [← round_hundred (K := K) n]; exact LawfulPyF.round_mono n a1
+  · rw [← round_zero (K := K) n]; exact LawfulPyF.round_mono n b0
+  · rw [← round_hundred (K := K) n]; exact LawfulPyF.round_mono n b1
+  · rw [← round_neg_hundred (K := K) n]; exact LawfulPyF.round_mono n (by linarith)
+  · rw [← round_hundred (K := K) n]; exact LawfulPyF.round_mono n (by linarith)
+
+/-! ## the leaf kinds through the engine -/
+
+/-- for a covered leaf kind the row-major run is what `calculate()` and the batch run return -/
+theorem leaf_series_engine (k : Kind K) (nm : String) (n : Nat) (hc : Covered nm k)
+    (raw : List (Candle K)) (hraw : ∀ c ∈ raw, Plain c) (out : List (Candle K))
+    (h : rowMajor (mkTop k nm n) raw = .ok out) :
+    engineCalc (mkTop k nm n) raw = .ok out ∧
+    candlesOf (runIndicator (mkTop k nm n) {} raw []) = .ok out := by
+  obtain ⟨C⟩ := hc.contract n
+  have hrun : Gen.rowMajor (TreeSpec.ofLeaf _ (hc.isLeaf n) C).S raw = .ok out := h
+  constructor
+  · have := ((TreeSpec.ofLeaf _ (hc.isLeaf n) C).engine [] raw [] out rfl (by simp) hraw).2 (by simpa using hrun)
+    simpa using this
+  · exact ((TreeSpec.ofLeaf _ (hc.isLeaf n) C).batch_iff (MgrSpec.base K) raw hraw _).2 hrun
+
+/-- … and what every append schedule returns -/
+theorem leaf_series_live (k : Kind K) (nm : String) (n : Nat) (hc : Covered nm k)
+    (init : List (Candle K)) (chunks : List (List (Candle K)))
+    (hraw : ∀ c ∈ init ++ chunks.flatten, Plain c) (snap out : List (Candle K))
+    (hsnap : candlesOf (runIndicator (mkTop k nm n) {} init chunks) = .ok snap)
+    (h : rowMajor (mkTop k nm n) (init ++ chunks.flatten) = .ok out) : snap = out := by
+  obtain ⟨C⟩ := hc.contract n
+  have h1 := (TreeSpec.ofLeaf _ (hc.isLeaf n) C).live_refines (MgrSpec.base K) init chunks hraw snap hsnap
+  have h2 : rowMajor (mkTop k nm n) (init ++ chunks.flatten) = .ok snap := h1
+  rw [h] at h2
+  exact (Except.ok.inj h2).symm
+
+/-- **HighestLowest, whole series, through the engine and the object** -/
+theorem hl_series_batch (p : Nat) (hp : 1 ≤ p) (nm : String) (n : Nat)
+    (raw : List (Candle K)) (hraw : ∀ c ∈ raw, Plain c) :
+    ∃ vs : List (Val K), vs.length = raw.length ∧
+      engineCalc (mkTop (.hl p : Kind K) nm n) raw = .ok (deco nm raw vs) ∧
+      candlesOf (runIndicator (mkTop (.hl p : Kind K) nm n) {} raw []) = .ok (deco nm raw vs) ∧
+      ∀ j, j < raw.length → HlOK p n (numAt (·.h) raw) (numAt (·.l) raw) j (vs.getD j .none) := by
+  obtain ⟨vs, hl, hrun, hall⟩ := hl_series p hp nm n raw hraw
+  obtain ⟨h1, h2⟩ := leaf_series_engine _ nm n (Covered.hl p) raw hraw _ hrun
+  exact ⟨vs, hl, h1, h2, hall⟩
+
+theorem hl_series_live (p : Nat) (hp : 1 ≤ p) (nm : String) (n : Nat)
+    (init : List (Candle K)) (chunks : List (List (Candle K)))
+    (hraw : ∀ c ∈ init ++ chunks.flatten, Plain c) (snap : List (Candle K))
+    (hsnap : candlesOf (runIndicator (mkTop (.hl p : Kind K) nm n) {} init chunks) = .ok snap) :
+    ∃ vs : List (Val K), vs.length = (init ++ chunks.flatten).length ∧
+      snap = deco nm (init ++ chunks.flatten) vs ∧
+      ∀ j, j < (init ++ chunks.flatten).length →
+        HlOK p n (numAt (·.h) (init ++ chunks.flatten)) (numAt (·.l) (init ++ chunks.flatten)) j (vs.getD j .none) := by
+  obtain ⟨vs, hl, hrun, hall⟩ := hl_series p hp nm n _ hraw
+  exact ⟨vs, hl, leaf_series_live _ nm n (Covered.hl p) init chunks hraw snap _ hsnap hrun, hall⟩
+
+/-- **Donchian, whole series, through the engine and the object** -/
+theorem donchian_series_batch (p : Nat) (hp : 2 ≤ p) (nm : String) (n : Nat) (hn : DcNames nm)
+    (raw : List (Candle K)) (hraw : ∀ c ∈ raw, Plain c) :
+    ∃ vs : List (Val K), vs.length = raw.length ∧
+      engineCalc (mkTop (.donchian p : Kind K) nm n) raw = .ok (deco nm raw vs) ∧
+      candlesOf (runIndicator (mkTop (.donchian p : Kind K) nm n) {} raw []) = .ok (deco nm raw vs) ∧
+      ∀ j, j < raw.length → DcOK p n (numAt (·.h) raw) (numAt (·.l) raw) j (vs.getD j .none) := by
+  obtain ⟨vs, hl, hrun, hall⟩ := donchian_series p hp nm n hn raw hraw
+  obtain ⟨h1, h2⟩ := leaf_series_engine _ nm n (Covered.donchian (p : Int) (by omega)) raw hraw _ hrun
+  exact ⟨vs, hl, h1, h2, hall⟩
+
+theorem donchian_series_live (p : Nat) (hp : 2 ≤ p) (nm : String) (n : Nat) (hn : DcNames nm)
+    (init : List (Candle K)) (chunks : List (List (Candle K)))
+    (hraw : ∀ c ∈ init ++ chunks.flatten, Plain c) (snap : List (Candle K))
+    (hsnap : candlesOf (runIndicator (mkTop (.donchian p : Kind K) nm n) {} init chunks) = .ok snap) :
+    ∃ vs : List (Val K), vs.length = (init ++ chunks.flatten).length ∧
+      snap = deco nm (init ++ chunks.flatten) vs ∧
+      ∀ j, j < (init ++ chunks.flatten).length →
+        DcOK p n (numAt (·.h) (init ++ chunks.flatten)) (numAt (·.l) (init ++ chunks.flatten)) j (vs.getD j .none) := by
+  obtain ⟨vs, hl, hrun, hall⟩ := donchian_series p hp nm n hn _ hraw
+  exact ⟨vs, hl, leaf_series_live _ nm n (Covered.donchian (p : Int) (by omega)) init chunks hraw snap _ hsnap hrun, hall⟩
+
+/-- **Aroon, whole series, through the engine and the object** -/
+theorem aroon_series_batch (p : Nat) (hp : 1 ≤ p) (nm : String) (n : Nat)
+    (raw : List (Candle K)) (hraw : ∀ c ∈ raw, Plain c) :
+    ∃ vs : List (Val K), vs.length = raw.length ∧
+      engineCalc (mkTop (.aroon p : Kind K) nm n) raw = .ok (deco nm raw vs) ∧
+      candlesOf (runIndicator (mkTop (.aroon p : Kind K) nm n) {} raw []) = .ok (deco nm raw vs) ∧
+      ∀ j, j < raw.length → AroonOK p n (fieldAt (·.h) raw) (fieldAt (·.l) raw) j (vs.getD j .none) := by
+  obtain ⟨vs, hl, hrun, hall⟩ := aroon_series p hp nm n raw hraw
+  obtain ⟨h1, h2⟩ := leaf_series_engine _ nm n (Covered.aroon (p : Int) (by omega)) raw hraw _ hrun
+  exact ⟨vs, hl, h1, h2, hall⟩
+
+theorem aroon_series_live (p : Nat) (hp : 1 ≤ p) (nm : String) (n : Nat)
+    (init : List (Candle K)) (chunks : List (List (Candle K)))
+    (hraw : ∀ c ∈ init ++ chunks.flatten, Plain c) (snap : List (Candle K))
+    (hsnap : candlesOf (runIndicator (mkTop (.aroon p : Kind K) nm n) {} init chunks) = .ok snap) :
+    ∃ vs : List (Val K), vs.length = (init ++ chunks.flatten).length ∧
+      snap = deco nm (init ++ chunks.flatten) vs ∧
+      ∀ j, j < (init ++ chunks.flatten).length →
+        AroonOK p n (fieldAt (·.h) (init ++ chunks.flatten)) (fieldAt (·.l) (init ++ chunks.flatten)) j (vs.getD j .none) := by
+  obtain ⟨vs, hl, hrun, hall⟩ := aroon_series p hp nm n _ hraw
+  exact ⟨vs, hl, leaf_series_live _ nm n (Covered.aroon (p : Int) (by omega)) init chunks hraw snap _ hsnap hrun, hall⟩
+
+/-! ### non-vacuity on the five demo candles (highs 12 13 15 16 15, lows 9 10 11 13 15) -/
+
+example : ∃ vs : List (Val ℚ), vs.length = winDemoRaw.length ∧
+    engineCalc (mkTop (.hl ((2 : Nat) : Int) : Kind ℚ) "HL_2" 4) winDemoRaw = .ok (deco "HL_2" winDemoRaw vs) ∧
+    candlesOf (runIndicator (mkTop (.hl ((2 : Nat) : Int) : Kind ℚ) "HL_2" 4) {} winDemoRaw []) = .ok (deco "HL_2" winDemoRaw vs) ∧
+    ∀ j, j < winDemoRaw.length → HlOK 2 4 (numAt (·.h) winDemoRaw) (numAt (·.l) winDemoRaw) j (vs.getD j .none) :=
+  hl_series_batch 2 (by norm_num) "HL_2" 4 winDemoRaw winDemoRaw_plain
+
+theorem dcNames_demo : DcNames "DONCHIAN_3" := ⟨by decide, by decide⟩
+
+example : ∃ vs : List (Val ℚ), vs.length = winDemoRaw.length ∧
+    engineCalc (mkTop (.donchian ((3 : Nat) : Int) : Kind ℚ) "DONCHIAN_3" 4) winDemoRaw = .ok (deco "DONCHIAN_3" winDemoRaw vs) ∧
+    candlesOf (runIndicator (mkTop (.donchian ((3 : Nat) : Int) : Kind ℚ) "DONCHIAN_3" 4) {} winDemoRaw [])
+      = .ok (deco "DONCHIAN_3" winDemoRaw vs) ∧
+    ∀ j, j < winDemoRaw.length → DcOK 3 4 (numAt (·.h) winDemoRaw) (numAt (·.l) winDemoRaw) j (vs.getD j .none) :=
+  donchian_series_batch 3 (by norm_num) "DONCHIAN_3" 4 dcNames_demo winDemoRaw winDemoRaw_plain
+
+example : ∃ vs : List (Val ℚ), vs.length = winDemoRaw.length ∧
+    engineCalc (mkTop (.aroon ((2 : Nat) : Int) : Kind ℚ) "AROON_2" 4) winDemoRaw = .ok (deco "AROON_2" winDemoRaw vs) ∧
+    candlesOf (runIndicator (mkTop (.aroon ((2 : Nat) : Int) : Kind ℚ) "AROON_2" 4) {} winDemoRaw [])
+      = .ok (deco "AROON_2" winDemoRaw vs) ∧
+    ∀ j, j < winDemoRaw.length → AroonOK 2 4 (fieldAt (·.h) winDemoRaw) (fieldAt (·.l) winDemoRaw) j (vs.getD j .none) :=
+  aroon_series_batch 2 (by norm_num) "AROON_2" 4 winDemoRaw winDemoRaw_plain
+
+/-- the textbook values on the demo candles at the last index (window = candles 2, 3, 4) -/
+example : winMax (fieldAt (·.h) winDemoRaw) 4 2 = 16 := by
+  norm_num [winMax, fieldAt, winDemoRaw, Demo.mk]
+example : winMin (fieldAt (·.l) winDemoRaw) 4 2 = 11 := by
+  norm_num [winMin, fieldAt, winDemoRaw, Demo.mk]
+example : hiBar (fieldAt (·.h) winDemoRaw) 4 2 = 1 := by
+  norm_num [hiBar, extBar, fieldAt, winDemoRaw, Demo.mk]
+example : loBar (fieldAt (·.l) winDemoRaw) 4 2 = 2 := by
+  norm_num [loBar, extBar, fieldAt, winDemoRaw, Demo.mk]
+example : aroonOf (K := ℚ) 2 1 = 50 := by norm_num [aroonOf]
+example : aroonOf (K := ℚ) 2 2 = 0 := by norm_num [aroonOf]
+
+theorem round_int_q (n : Nat) (k : Int) : PyF.round n ((k : ℚ)) = (k : ℚ) := by
+  have h := LawfulPyF.round_grid (K := ℚ) n (k * 10 ^ n)
+  have hp : (10 : ℚ) ^ n ≠ 0 := by positivity
+  have e : (((k * 10 ^ n : Int)) : ℚ) / 10 ^ n = k := by
+    push_cast; field_simp
+  rw [e] at h; exact h
+
+/-- the batch run on the demo candles: Aroon(2) at index 1 is all `None`, at index 4 it is
+`{AROONU: 50.0, AROOND: 0.0, AROONOSC: 50.0}` -/
+example : ∃ vs : List (Val ℚ),
+    candlesOf (runIndicator (mkTop (.aroon ((2 : Nat) : Int) : Kind ℚ) "AROON_2" 4) {} winDemoRaw [])
+      = .ok (deco "AROON_2" winDemoRaw vs) ∧
+    vs.getD 1 .none = aroonNone ∧
+    vs.getD 4 .none = .dict [("AROONU", .num (.flt 50)), ("AROOND", .num (.flt 0)), ("AROONOSC", .num (.flt 50))] := by
+  obtain ⟨vs, _, _, hrun, hall⟩ := aroon_series_batch 2 (by norm_num) "AROON_2" 4 winDemoRaw winDemoRaw_plain
+  refine ⟨vs, hrun, (hall 1 (by decide)).1 (by decide), ?_⟩
+  rw [(hall 4 (by decide)).2 (by decide)]
+  have e1 : hiBar (fieldAt (·.h) winDemoRaw) 4 2 = 1 := by
+    norm_num [hiBar, extBar, fieldAt, winDemoRaw, Demo.mk]
+  have e2 : loBar (fieldAt (·.l) winDemoRaw) 4 2 = 2 := by
+    norm_num [loBar, extBar, fieldAt, winDemoRaw, Demo.mk]
+  have a1 : aroonOf (K := ℚ) 2 1 = ((50 : Int) : ℚ) := by norm_num [aroonOf]
+  have a2 : aroonOf (K := ℚ) 2 2 = ((0 : Int) : ℚ) := by norm_num [aroonOf]
+  have a3 : aroonOf (K := ℚ) 2 1 - aroonOf (K := ℚ) 2 2 = ((50 : Int) : ℚ) := by norm_num [aroonOf]
+  rw [e1, e2]
+  unfold aroonVal
+  rw [a3, a1, a2, round_int_q, round_int_q]
+  norm_num
+
+/-- … HighestLowest(2) at index 4 is `{low: 11, high: 16}` (ints stay ints) and at index 0
+`{low: 9, high: 12}` (no warm-up) -/
+example : ∃ vs : List (Val ℚ),
+    candlesOf (runIndicator (mkTop (.hl ((2 : Nat) : Int) : Kind ℚ) "HL_2" 4) {} winDemoRaw [])
+      = .ok (deco "HL_2" winDemoRaw vs) ∧
+    vs.getD 0 .none = .dict [("low", .num (.int 9)), ("high", .num (.int 12))] ∧
+    vs.getD 4 .none = .dict [("low", .num (.int 11)), ("high", .num (.int 16))] := by
+  obtain ⟨vs, _, _, hrun, hall⟩ := hl_series_batch 2 (by norm_num) "HL_2" 4 winDemoRaw winDemoRaw_plain
+  refine ⟨vs, hrun, ?_, ?_⟩
+  · obtain ⟨kl, kh, ⟨_, b2⟩, ⟨_, c2⟩, hv, _, _⟩ := hall 0 (by decide)
+    have : kl = 0 := by omega
+    have : kh = 0 := by omega
+    subst_vars
+    rw [hv]; rfl
+  · obtain ⟨kl, kh, ⟨b1, b2⟩, ⟨c1, c2⟩, hv, e1, e2⟩ := hall 4 (by decide)
+    rw [hv]
+    have w1 : winMin (fun k => (numAt (·.l) winDemoRaw k).toF) 4 2 = 11 := by
+      norm_num [winMin, numAt, winDemoRaw, Demo.mk, Num.toF, LawfulPyF.ofInt_eq]
+    have w2 : winMax (fun k => (numAt (·.h) winDemoRaw k).toF) 4 2 = 16 := by
+      norm_num [winMax, numAt, winDemoRaw, Demo.mk, Num.toF, LawfulPyF.ofInt_eq]
+    rw [w1] at e1; rw [w2] at e2
+    have hkl : kl = 2 := by
+      interval_cases kl <;> first | rfl | (exfalso; revert e1; norm_num [numAt, winDemoRaw, Demo.mk, Num.toF, LawfulPyF.ofInt_eq])
+    have hkh : kh = 3 := by
+      interval_cases kh <;> first | rfl | (exfalso; revert e2; norm_num [numAt, winDemoRaw, Demo.mk, Num.toF, LawfulPyF.ofInt_eq])
+    subst hkl hkh
+    rfl
+
+/-- … Donchian(3) at index 1 is all `None`, at index 4 it is `{DCL: 11, DCM: 13.5, DCU: 16}` -/
+example : ∃ vs : List (Val ℚ),
+    candlesOf (runIndicator (mkTop (.donchian ((3 : Nat) : Int) : Kind ℚ) "DONCHIAN_3" 4) {} winDemoRaw [])
+      = .ok (deco "DONCHIAN_3" winDemoRaw vs) ∧
+    vs.getD 1 .none = dcNone ∧
+    vs.getD 4 .none = .dict [("DCL", .num (.int 11)), ("DCM", .num (.flt (27 / 2))), ("DCU", .num (.int 16))] := by
+  obtain ⟨vs, _, _, hrun, hall⟩ := donchian_series_batch 3 (by norm_num) "DONCHIAN_3" 4 dcNames_demo winDemoRaw winDemoRaw_plain
+  refine ⟨vs, hrun, (hall 1 (by decide)).1 (by decide), ?_⟩
+  obtain ⟨kl, kh, ⟨b1, b2⟩, ⟨c1, c2⟩, hv, e1, e2⟩ := (hall 4 (by decide)).2 (by decide)
+  rw [hv]
+  have w1 : winMin (fun k => (numAt (·.l) winDemoRaw k).toF) 4 (3 - 1) = 11 := by
+    norm_num [winMin, numAt, winDemoRaw, Demo.mk, Num.toF, LawfulPyF.ofInt_eq]
+  have w2 : winMax (fun k => (numAt (·.h) winDemoRaw k).toF) 4 (3 - 1) = 16 := by
+    norm_num [winMax, numAt, winDemoRaw, Demo.mk, Num.toF, LawfulPyF.ofInt_eq]
+  rw [w1] at e1; rw [w2] at e2
+  have hkl : kl = 2 := by
+    interval_cases kl <;> first | rfl | (exfalso; revert e1; norm_num [numAt, winDemoRaw, Demo.mk, Num.toF, LawfulPyF.ofInt_eq])
+  have hkh : kh = 3 := by
+    interval_cases kh <;> first | rfl | (exfalso; revert e2; norm_num [numAt, winDemoRaw, Demo.mk, Num.toF, LawfulPyF.ofInt_eq])
+  subst hkl hkh
+  have hm : PyF.round 4 (((numAt (·.h) winDemoRaw 3).toF + (numAt (·.l) winDemoRaw 2).toF) / 2) = (27 / 2 : ℚ) := by
+    have h := LawfulPyF.round_grid (K := ℚ) 4 135000
+    have e : (((135000 : Int)) : ℚ) / 10 ^ 4 = 27 / 2 := by norm_num
+    rw [e] at h
+    rw [e1, e2]
+    norm_num
+    exact h
+  rw [hm]
+  rfl
+
+/-- … and VWAP at index 4 is a number within `ε` of `7400/600 = 37/3` -/
+example : ∃ out : List (Candle ℚ),
+    Gen.rowMajor (vwapTree (F := ℚ) "VWAP_10" 4 10).S winDemoRaw = .ok out ∧
+    NumNear 4 (37 / 3) (readingByCandle (out.getD 4 default) "VWAP_10") := by
+  obtain ⟨out, _, hrun, hall⟩ := vwap_series_candles 10 "VWAP_10" 4 vwapNames_demo winDemoRaw winDemoRaw_plain
+  refine ⟨out, hrun, ?_⟩
+  have e : vwapExact (fieldAt (·.h) winDemoRaw) (fieldAt (·.l) winDemoRaw) (fieldAt (·.c) winDemoRaw)
+      (fieldAt (·.v) winDemoRaw) 4 = 37 / 3 := by
+    norm_num [vwapExact, cumPV, cumSum, typAt, fieldAt, winDemoRaw, Demo.mk]
+  have := (hall 4 (by decide)).1
+  rwa [e] at this
+
 #print axioms vwap_series
 #print axioms vwap_series_candles
 #print axioms vwap_series_engine
 #print axioms vwap_series_batch
 #print axioms vwap_series_live
+#print axioms hl_series
+#print axioms hl_series_batch
+#print axioms hl_series_live
+#print axioms hlOK_near
+#print axioms donchian_series
+#print axioms donchian_series_batch
+#print axioms donchian_series_live
+#print axioms dcOK_near
+#print axioms aroon_series
+#print axioms aroon_series_batch
+#print axioms aroon_series_live
+#print axioms aroonOK_near
+#print axioms hiBar_spec
+#print axioms loBar_spec
 
 end Numeric
 end Hex
